@@ -145,12 +145,15 @@ def decl_text(d, volatile):
     q = "volatile " if volatile else ""
     if d["k"] in ("v", "lv"):
         return "%s%s %s = %s;" % (q, TYPES[d["t"]][0], d["n"], d["i"])
+    if d["k"] == "lvp":      # an object that is assigned through a pointer to it and then read directly
+        return "%s%s %s = %s; %s%s%s *%s = &%s;" % (q, TYPES[d["t"]][0], d["n"], d["i"], "static " if d["n"].startswith("g") else "", q,
+                                                   TYPES[d["t"]][0], re.sub(r"a(\d+)$", r"p\1", d["n"]), d["n"])
     base = {"B": "_Bool", "i": "signed int", "u": "unsigned"}[d["t"]]
     return "%sstruct { %s f : %d; } %s = { %s };" % (q, base, d["w"], d["n"], d["i"])
 
 
 def finals(c):
-    return [d for d in c["lv"] if d["k"] in ("lv", "lvbf")]
+    return [d for d in c["lv"] if d["k"] in ("lv", "lvbf", "lvp")]
 
 
 def expr_expected(c):
@@ -193,7 +196,7 @@ def render_expr(c, i):
     if c["d"] >= 1:
         # R: operands are file-scope volatile objects (loaded at run time); L: plain locals (registers: the MIR optimiser may fold)
         for ctx in ("R", "L"):
-            ren = (lambda t: re.sub(r"\b([vab]\d+)\b", "g%d_\\1" % i, t)) if ctx == "R" else (lambda t: t)
+            ren = (lambda t: re.sub(r"\b([vabp]\d+)\b", "g%d_\\1" % i, t)) if ctx == "R" else (lambda t: t)
             L.append("  {")
             if ctx == "L":
                 for d in c["lv"]:
@@ -522,6 +525,7 @@ K_DIV0 = "cexpr:reject:division_by_zero_in_unevaluated_operand"
 K_DIVMIN = "cexpr:compiler_crash:min_div_minus1_in_unevaluated_operand"
 K_ANDSWAP = "cexpr:crash:gen_O2_zero_extension_of_and_with_constant_first"
 K_BFALIAS = "cexpr:bitfield:bool_member_initialiser_alias"
+K_ADDR = "cexpr:local:narrow_object_stored_through_pointer_then_read"
 K_LOSTCOPY = "cstmt:gen_O2:postincrement_loop_test_lost_copy"
 K_INIT_OVR = "cinit:static:later_initialiser_of_same_scalar_ignored"
 K_INIT_PAS = "cinit:positional_initialiser_after_string_literal_member"
@@ -604,6 +608,12 @@ def classify(fails):
         if ctx == "L" and eng != "ei" and "ei" not in engs[id(c)] and any(s == "bf:B1" or ":bfB1," in s for s in sgs) \
                 and set(fields) <= {"value", "final"}:
             keyed.append((K_BFALIAS, r))
+            continue
+        # (5) a narrow local whose address is taken stays in a register; a store through the pointer changes its low bytes
+        #     only and a later read of the variable itself uses the stale upper bytes (interpreter, -O0, -O1)
+        if ctx == "L" and set(fields) <= {"value", "final"} and engs[id(c)] & {"ei", "eg-O0", "eg-O1"} and any(
+                re.search(r":\*(B|c|sc|uc|s|us|i|u)(,|$)", s) for s in sgs):
+            keyed.append((K_ADDR, r))
             continue
         sigs = [s for s in sgs if not s.startswith(("leaf:", "enum", "lit:", "bf:"))] or sgs
         sig = sigs[-1]
